@@ -2,6 +2,7 @@
    Statements only, closed by [exact].  deque_run (Model/Iter.v) is the specification: a deque
    over the not-yet-yielded elements; wtit_run runs the model of WTIterator over a call history. *)
 From QwtModel Require Import ListX Seq Iter QVec QWT Huff BitVec QVecP QWTP HQWTP BitVecP IterP.
+From QwtModel Require BinWTP WrapP RSQBuild.
 
 (* every finite history of next / next_back / len, including calls after exhaustion *)
 Theorem C12_tree_iterator_histories : forall (get_u : N -> outcome N) (s : list N),
@@ -61,3 +62,19 @@ Theorem C12_example : deque_run [10;20;30] [INext; ILen; IBack; IBack; ILen; INe
   = [OSome 10; OLen 2; OSome 30; OSome 20; OLen 0; ONone; ONone; OLen 0].
 Proof. exact deque_example. Qed.
 Print Assumptions C12_example.
+
+(* the binary trees WT / HWT: the same iterator state machine over their get_unchecked *)
+Theorem C12_wt : forall w t seq, BinWTP.wt_spec w t seq -> len seq < 2 ^ 64 ->
+  forall h, wtit_run (wt_get_unchecked w false t) (wtit_new (w_n t)) h = Val (deque_run seq h).
+Proof. exact WrapP.wt_iter_correct. Qed.
+Print Assumptions C12_wt.
+Theorem C12_hwt : forall w t seq, BinWTP.hwt_spec w t seq -> len seq < 2 ^ 64 ->
+  forall h, wtit_run (wt_get_unchecked w true t) (wtit_new (w_n t)) h = Val (deque_run seq h).
+Proof. exact WrapP.hwt_iter_correct. Qed.
+Print Assumptions C12_hwt.
+(* from the constructor: iterating a freshly built plain binary tree *)
+Theorem C12_wt_new : forall w seq, BinWTP.width_ok w -> Forall (fun x => x < 2 ^ w) seq -> len seq < RSQBuild.RSQ_MAXN ->
+  exists t, wt_build w false seq [] = Val t /\
+    forall h, wtit_run (wt_get_unchecked w false t) (wtit_new (w_n t)) h = Val (deque_run seq h).
+Proof. exact WrapP.wt_new_iter. Qed.
+Print Assumptions C12_wt_new.
